@@ -7,7 +7,10 @@ import Sigc.AdaptLemmas
   `exception_catch`, `track_obj`, `slot::operator()`, `slot_call::call_it`, the emit loops) either hands on the very
   object or constructs a new one, according to the *declared parameter kind of that operator in the current code*,
   which is the explicit table `paramKind`.  The theorems are proved for the table as it is (all `forwardingRef`);
-  `f5_witness` shows that they fail for the table of the unrepaired code.
+  `f5_witness` shows that they fail for the table of the unrepaired code.  How a call operator passes its named
+  parameters on is the second explicit table `passKind`: `std::forward` everywhere except `compose2_functor`, which
+  hands the *named* parameters (lvalues) to both getters; `compose2_getters_intact` is proved for that row and
+  `compose2_forward_witness` shows that it fails when the row says `forward`.
 
   Known limit (finding F8, `rref_witness`): a `T&&` signal parameter that passes `bind`/`hide` below a forwarding
   adaptor is move-constructed into a `std::tuple<T>`; for `T&&` the identity theorem is proved for chains of
@@ -50,17 +53,17 @@ theorem emitter_args_inv (n0 : Nat) (sig : List PK) (objs : List Nat) (hsig : si
 
 theorem emit_inv (sig : List PK) (objs : List Nat) (slots : List OSlot) (h : Heap)
     (hsig : sig.contains .rref = false) (hslots : ∀ s ∈ slots, s.f.noRRef = true) (hlog : logOK h = true) :
-    HeapInv h.next h.hops (emitVoidO paramKind sig objs slots h).1
-      ∧ HeapInv h.next h.hops (emitValueO paramKind sig objs slots h).1 := by
+    HeapInv h.next h.hops (emitVoidO paramKind passKind sig objs slots h).1
+      ∧ HeapInv h.next h.hops (emitValueO paramKind passKind sig objs slots h).1 := by
   have hi : HeapInv h.next h.hops h := ⟨Nat.le_refl _, fun _ _ => rfl, hlog⟩
   have hargs := emitter_args_inv h.next sig objs hsig
   constructor
   · exact emitVoid_inv (HeapInv h.next h.hops) _ _ slots
-      (fun s hs h' hi' => callO_inv paramKind paramKind_forwarding s.f true _ h' (hslots s hs) hi' hargs) h hi
+      (fun s hs h' hi' => callO_inv paramKind paramKind_forwarding passKind s.f true _ h' (hslots s hs) hi' hargs) h hi
   · simp only [emitValueO]
     rw [emitValue_eq_loop]
     refine emitLoop_inv (HeapInv h.next h.hops) _ _ slots
-      (fun s hs h' hi' => callO_inv paramKind paramKind_forwarding s.f true _ h' (hslots s hs) hi' ?_) h _ hi
+      (fun s hs h' hi' => callO_inv paramKind paramKind_forwarding passKind s.f true _ h' (hslots s hs) hi' ?_) h _ hi
     intro a ha
     obtain ⟨a', ha', rfl⟩ := List.mem_map.mp ha
     exact named_inv a' (hargs a' ha')
@@ -71,8 +74,8 @@ theorem emit_inv (sig : List PK) (objs : List Nat) (slots : List OSlot) (h : Hea
     writes through a reference, slot `j > i` and the emitter read.  Both emit loops. -/
 theorem ref_identity (sig : List PK) (objs : List Nat) (slots : List OSlot) (h : Heap)
     (hsig : sig.contains .rref = false) (hslots : ∀ s ∈ slots, s.f.noRRef = true) (hlog : logOK h = true) :
-    (∀ r ∈ (emitVoidO paramKind sig objs slots h).1.log, ∀ p ∈ r.params, ∀ o, p.origin = some o → p.src = o)
-    ∧ (∀ r ∈ (emitValueO paramKind sig objs slots h).1.log, ∀ p ∈ r.params, ∀ o, p.origin = some o → p.src = o) := by
+    (∀ r ∈ (emitVoidO paramKind passKind sig objs slots h).1.log, ∀ p ∈ r.params, ∀ o, p.origin = some o → p.src = o)
+    ∧ (∀ r ∈ (emitValueO paramKind passKind sig objs slots h).1.log, ∀ p ∈ r.params, ∀ o, p.origin = some o → p.src = o) := by
   have := emit_inv sig objs slots h hsig hslots hlog
   exact ⟨(logOK_iff _).mp this.1.log_ok, (logOK_iff _).mp this.2.log_ok⟩
 
@@ -82,7 +85,7 @@ example :
     let slots : List OSlot :=
       [⟨false, false, .un (.hide none) (.un .hideReturn (.leaf 0 true [.lref] true))⟩,
        ⟨false, false, .un (.bind none [.byRef 100]) (.leaf 1 false [.lref, .cref, .lref] false)⟩]
-    let h := (emitVoidO paramKind [.lref, .val] [0, 1] slots h0).1
+    let h := (emitVoidO paramKind passKind [.lref, .val] [0, 1] slots h0).1
     ([PK.lref, PK.val].contains .rref = false) ∧ (slots.all (fun s => s.f.noRRef)) = true ∧ logOK h0 = true
     ∧ h.log = [⟨0, [⟨some 0, 0, 7⟩]⟩, ⟨1, [⟨some 0, 0, 107⟩, ⟨some 1, 1, 5⟩, ⟨some 100, 100, 40⟩]⟩]
     ∧ h.val 0 = 307 ∧ h.val 1 = 5 ∧ h.val 100 = 242 := by decide
@@ -93,8 +96,8 @@ example :
     `bound_argument<reference_wrapper<T>>::invoke()` designates and yields the bound object itself. -/
 theorem bound_ref_identity (sig : List PK) (objs : List Nat) (slots : List OSlot) (h : Heap)
     (hsig : sig.contains .rref = false) (hslots : ∀ s ∈ slots, s.f.noRRef = true) (hlog : logOK h = true) :
-    (∀ o, o < h.next → (emitVoidO paramKind sig objs slots h).1.hops o = h.hops o
-                     ∧ (emitValueO paramKind sig objs slots h).1.hops o = h.hops o)
+    (∀ o, o < h.next → (emitVoidO paramKind passKind sig objs slots h).1.hops o = h.hops o
+                     ∧ (emitValueO paramKind passKind sig objs slots h).1.hops o = h.hops o)
     ∧ (∀ o, (Bound.byRef o).invoke = ⟨o, .lv, some o⟩ ∧ (Bound.byCRef o).invoke = ⟨o, .clv, some o⟩) := by
   have := emit_inv sig objs slots h hsig hslots hlog
   exact ⟨fun o ho => ⟨this.1.hops_eq o ho, this.2.hops_eq o ho⟩, fun o => ⟨rfl, rfl⟩⟩
@@ -102,7 +105,7 @@ theorem bound_ref_identity (sig : List PK) (objs : List Nat) (slots : List OSlot
 example :
     let slots : List OSlot :=
       [⟨false, false, .un (.bind (some 0) [.byRef 100, .byCRef 101, .byVal 200]) (.leaf 0 false [.lref, .cref, .val, .lref] true)⟩]
-    let h := (emitValueO paramKind [.lref] [0] slots h0).1
+    let h := (emitValueO paramKind passKind [.lref] [0] slots h0).1
     h.log = [⟨0, [⟨some 100, 100, 40⟩, ⟨some 101, 101, 0⟩, ⟨some 200, 200, 0⟩, ⟨some 0, 0, 7⟩]⟩]
     ∧ h.copies 100 = 0 ∧ h.hops 100 = 0 ∧ h.copies 200 = 1 ∧ h.hops 200 = 0 := by decide
 
@@ -117,16 +120,16 @@ theorem emitterArg_frame (sig : List PK) (objs : List Nat) (o : Nat)
 theorem value_intact (sig : List PK) (objs : List Nat) (slots : List OSlot) (h : Heap) (o : Nat) (ho : o < h.next)
     (hconst : ∀ a ∈ List.zipWith emitterArg sig objs, a.cat ≠ .clv → a.obj ≠ o)
     (hb : ∀ s ∈ slots, o ∉ s.f.boundMut) :
-    (emitVoidO paramKind sig objs slots h).1.val o = h.val o
-    ∧ (emitValueO paramKind sig objs slots h).1.val o = h.val o := by
+    (emitVoidO paramKind passKind sig objs slots h).1.val o = h.val o
+    ∧ (emitValueO paramKind passKind sig objs slots h).1.val o = h.val o := by
   have hf : Frame o (h.val o) h := ⟨ho, rfl⟩
   constructor
   · exact (emitVoid_inv (Frame o (h.val o)) _ _ slots
-      (fun s hs h' hf' => callO_frame paramKind paramKind_forwarding s.f true _ h' (hb s hs) hf' hconst) h hf).val
+      (fun s hs h' hf' => callO_frame paramKind paramKind_forwarding passKind s.f true _ h' (hb s hs) hf' hconst) h hf).val
   · simp only [emitValueO]
     rw [emitValue_eq_loop]
     refine (emitLoop_inv (Frame o (h.val o)) _ _ slots
-      (fun s hs h' hf' => callO_frame paramKind paramKind_forwarding s.f true _ h' (hb s hs) hf' ?_) h _ hf).val
+      (fun s hs h' hf' => callO_frame paramKind paramKind_forwarding passKind s.f true _ h' (hb s hs) hf' ?_) h _ hf).val
     intro a ha
     obtain ⟨a', ha', rfl⟩ := List.mem_map.mp ha
     exact named_frame a' (hconst a' ha')
@@ -137,7 +140,7 @@ example :
     let slots : List OSlot :=
       [⟨false, false, .leaf 0 false [.val] false⟩, ⟨false, false, .un .hideReturn (.leaf 1 true [.val] true)⟩,
        ⟨false, false, .leaf 2 true [.cref] false⟩]
-    let h := (emitVoidO paramKind [.val] [0] slots h0).1
+    let h := (emitVoidO paramKind passKind [.val] [0] slots h0).1
     (∀ a ∈ List.zipWith emitterArg [PK.val] [0], a.cat ≠ .clv → a.obj ≠ 0)
     ∧ h.log = [⟨0, [⟨some 0, 0, 7⟩]⟩, ⟨1, [⟨some 0, 0, 7⟩]⟩, ⟨2, [⟨some 0, 0, 7⟩]⟩] ∧ h.val 0 = 7
     ∧ h.val 1000 = 107 := by decide
@@ -146,18 +149,18 @@ example :
     returned (never `T_return()`, never an earlier slot's value). -/
 theorem result_not_defaulted (sig : List PK) (objs : List Nat) (pre : List OSlot) (last : OSlot) (post : List OSlot)
     (h h' : Heap) (r' : Option Int) (hl : last.callable = true) (hpost : ∀ s ∈ post, s.callable = false)
-    (hpre : emitValueO paramKind sig objs pre h = (h', .ok r')) :
-    emitValueO paramKind sig objs (pre ++ last :: post) h
-      = callO paramKind last.f true ((List.zipWith emitterArg sig objs).map (fun a => { a with cat := a.cat.named })) h' :=
+    (hpre : emitValueO paramKind passKind sig objs pre h = (h', .ok r')) :
+    emitValueO paramKind passKind sig objs (pre ++ last :: post) h
+      = callO paramKind passKind last.f true ((List.zipWith emitterArg sig objs).map (fun a => { a with cat := a.cat.named })) h' :=
   emitValue_last OSlot.callable _ (some 0) pre last post h h' r' hl hpost hpre
 
 example :
     let s1 : OSlot := ⟨false, false, .leaf 0 true [.cref] true⟩
     let s2 : OSlot := ⟨false, false, .un (.bindReturn 55) (.leaf 1 true [.cref] false)⟩
     let s3 : OSlot := ⟨false, true, .leaf 2 true [.cref] true⟩
-    (emitValueO paramKind [.cref] [0] [s1, s2, s3] h0).2 = .ok (some 55)
-    ∧ (emitValueO paramKind [.cref] [0] [s1] h0).2 = .ok (some 1007)
-    ∧ (emitValueO paramKind [.cref] [0] [s3] h0).2 = .ok (some 0) := by decide
+    (emitValueO paramKind passKind [.cref] [0] [s1, s2, s3] h0).2 = .ok (some 55)
+    ∧ (emitValueO paramKind passKind [.cref] [0] [s1] h0).2 = .ok (some 1007)
+    ∧ (emitValueO paramKind passKind [.cref] [0] [s3] h0).2 = .ok (some 0) := by decide
 
 /-- the parameter kinds of the unrepaired code: `retype_return_functor<void>::operator()(T_arg... a)` -/
 def tableF5 : AdaptorKind → ParamKind
@@ -169,9 +172,9 @@ def tableF5 : AdaptorKind → ParamKind
     the emitter's object keeps its value. -/
 theorem f5_witness :
     let slots : List OSlot := [⟨false, false, .un (.hide none) (.un .hideReturn (.leaf 0 true [.lref] true))⟩]
-    let h := (emitVoidO tableF5 [.lref, .val] [0, 1] slots h0).1
+    let h := (emitVoidO tableF5 passKind [.lref, .val] [0, 1] slots h0).1
     h.log = [⟨0, [⟨some 0, 1000, 7⟩]⟩] ∧ logOK h = false ∧ h.val 0 = 7 ∧ h.hops 0 = 1
-    ∧ logOK (emitVoidO paramKind [.lref, .val] [0, 1] slots h0).1 = true := by decide
+    ∧ logOK (emitVoidO paramKind passKind [.lref, .val] [0, 1] slots h0).1 = true := by decide
 
 /-- **F8 witness (known finding).**  For a `T&&` parameter the identity statement is false of the current code:
     `signal<void(Obj&&, Obj)>` with `hide_return(hide(f))` connected twice — inside `hide`, `T_arg` is deduced as `Obj`,
@@ -179,9 +182,73 @@ theorem f5_witness :
     the moved-from value. -/
 theorem rref_witness :
     let f : OExpr := .un .hideReturn (.un (.hide none) (.leaf 0 true [.cref] true))
-    let h := (emitVoidO paramKind [.rref, .val] [0, 1] [⟨false, false, f⟩, ⟨false, false, f⟩] h0).1
+    let h := (emitVoidO paramKind passKind [.rref, .val] [0, 1] [⟨false, false, f⟩, ⟨false, false, f⟩] h0).1
     h.log = [⟨0, [⟨some 0, 1000, 7⟩]⟩, ⟨0, [⟨some 0, 1001, movedMark⟩]⟩] ∧ logOK h = false
     ∧ h.val 0 = movedMark ∧ h.moves 0 = 2 ∧ h.hops 0 = 2 := by decide
+
+/-- the `passKind` table of the current code: only `compose2_functor` passes the named parameters -/
+theorem passKind_rows : passKind .compose2 = .named ∧ ∀ k, k ≠ .compose2 → passKind k = .forward := by
+  refine ⟨rfl, ?_⟩
+  intro k hk
+  cases k <;> first | rfl | exact absurd rfl hk
+
+/-- **Both getters of `compose(s, g1, g2)` see the emitted arguments.**  For arguments of every category — rvalues
+    (`std::move(x)`, temporaries, `T&&` signal parameters) included — and getters (functor expressions of any depth)
+    whose targets take their parameters by value or `const&`: both getters are called with lvalues, and every object
+    that existed before the call has its value and has not been moved from — before `g1`, between the two getters
+    (so in whichever order they are evaluated), and after the call. -/
+theorem compose2_getters_intact (sid : Nat) (g1 g2 : OExpr) (ex : Bool) (args : List ARef) (h : Heap)
+    (hn : g1.noRRef = true ∧ g2.noRRef = true) (hr : g1.readOnly = true ∧ g2.readOnly = true) :
+    let r := thread (enterArg (paramKind .compose2) ex) h args
+    let as2 := r.2.map (passOn (passKind .compose2))
+    let h1 := (callO paramKind passKind g1 false as2 r.1).1
+    let h2 := (callO paramKind passKind g2 false as2 h1).1
+    let h' := (callO paramKind passKind (.compose2 sid g1 g2) ex args h).1
+    (∀ a ∈ as2, a.cat.stable = true)
+    ∧ ∀ o, o < h.next →
+        (r.1.val o = h.val o ∧ r.1.moves o = h.moves o) ∧ (h1.val o = h.val o ∧ h1.moves o = h.moves o)
+        ∧ (h2.val o = h.val o ∧ h2.moves o = h.moves o) ∧ (h'.val o = h.val o ∧ h'.moves o = h.moves o) := by
+  intro r as2 h1 h2 h'
+  have hstable : ∀ a ∈ as2, a.cat.stable = true := by
+    intro a ha
+    obtain ⟨a', _, rfl⟩ := List.mem_map.mp ha
+    show (passOn .named a').cat.stable = true
+    simp only [passOn]
+    cases a'.cat <;> rfl
+  have hsafe : ∀ a ∈ as2, Safe h.next a := fun a ha => Or.inl (hstable a ha)
+  have k0 : Keep h.next h.val h.moves h := ⟨Nat.le_refl _, fun _ _ => rfl, fun _ _ => rfl⟩
+  have kr : Keep h.next h.val h.moves r.1 := thread_enter_any_keep ex h args k0
+  have k1 : Keep h.next h.val h.moves h1 :=
+    callO_keep paramKind paramKind_forwarding passKind g1 false as2 r.1 hn.1 hr.1 kr hsafe
+  have k2 : Keep h.next h.val h.moves h2 :=
+    callO_keep paramKind paramKind_forwarding passKind g2 false as2 h1 hn.2 hr.2 k1 hsafe
+  have k' : Keep h.next h.val h.moves h' := by
+    show Keep h.next h.val h.moves (callO paramKind passKind (.compose2 sid g1 g2) ex args h).1
+    simp only [callO]
+    split
+    · exact k1
+    · exact k2
+  exact ⟨hstable, fun o ho => ⟨⟨kr.val_eq o ho, kr.moves_eq o ho⟩, ⟨k1.val_eq o ho, k1.moves_eq o ho⟩,
+    ⟨k2.val_eq o ho, k2.moves_eq o ho⟩, ⟨k'.val_eq o ho, k'.moves_eq o ho⟩⟩⟩
+
+-- non-vacuity: signal<void(Obj&&)>, hide_return(compose(&set2, g1, g2)), both getters take Obj by value: each gets its
+-- own copy of the emitter's object (7), the emitter's object is copied twice and never moved
+example :
+    let e : OExpr := .compose2 0 (.leaf 0 false [.val] true) (.leaf 1 false [.val] true)
+    let h := (emitVoidO paramKind passKind [.rref] [0] [⟨false, false, .un .hideReturn e⟩] h0).1
+    e.noRRef = true ∧ e.readOnly = true
+    ∧ h.log = [⟨0, [⟨some 0, 0, 7⟩]⟩, ⟨1, [⟨some 0, 0, 7⟩]⟩] ∧ h.val 0 = 7 ∧ h.moves 0 = 0 ∧ h.copies 0 = 2 := by decide
+
+/-- the passing-on table of a code in which `compose2_functor` forwards its arguments to both getters -/
+def tableForward : AdaptorKind → PassKind := fun _ => .forward
+
+/-- **Forwarding witness.**  With `forward` in the `compose2` row the statement is false: on `signal<void(Obj&&)>`
+    with `hide_return(compose(&set2, g1, g2))` and by-value getters, the getter evaluated first moves from the emitter's
+    object and the other one sees the moved-from value (here: `g1` first; the real evaluation order is unspecified). -/
+theorem compose2_forward_witness :
+    let e : OExpr := .compose2 0 (.leaf 0 false [.val] true) (.leaf 1 false [.val] true)
+    let h := (emitVoidO paramKind tableForward [.rref] [0] [⟨false, false, .un .hideReturn e⟩] h0).1
+    h.log = [⟨0, [⟨some 0, 0, 7⟩]⟩, ⟨1, [⟨some 0, 0, movedMark⟩]⟩] ∧ h.val 0 = movedMark ∧ h.moves 0 = 2 := by decide
 
 theorem emitterArg_obj (k : PK) (o : Nat) : ObjInv (emitterArg k o) := by
   unfold ObjInv
@@ -193,23 +260,56 @@ theorem emitterArg_obj (k : PK) (o : Nat) : ObjInv (emitterArg k o) := by
     parameter designated `o` is fed from `o`, and no pre-existing object is copied or moved inside the library. -/
 theorem rref_forwarders (sig : List PK) (objs : List Nat) (slots : List OSlot) (h : Heap)
     (hslots : ∀ s ∈ slots, s.f.fwdOnly = true) (hlog : logOK h = true) :
-    (∀ r ∈ (emitVoidO paramKind sig objs slots h).1.log, ∀ p ∈ r.params, ∀ o, p.origin = some o → p.src = o)
-    ∧ (∀ o, o < h.next → (emitVoidO paramKind sig objs slots h).1.hops o = h.hops o) := by
+    (∀ r ∈ (emitVoidO paramKind passKind sig objs slots h).1.log, ∀ p ∈ r.params, ∀ o, p.origin = some o → p.src = o)
+    ∧ (∀ o, o < h.next → (emitVoidO paramKind passKind sig objs slots h).1.hops o = h.hops o) := by
   have hi : HeapInv h.next h.hops h := ⟨Nat.le_refl _, fun _ _ => rfl, hlog⟩
   have hargs : ∀ a ∈ List.zipWith emitterArg sig objs, ObjInv a := by
     intro a ha
     obtain ⟨k, _, o, _, rfl⟩ := mem_zipWith ha
     exact emitterArg_obj k o
-  have : HeapInv h.next h.hops (emitVoidO paramKind sig objs slots h).1 :=
+  have : HeapInv h.next h.hops (emitVoidO paramKind passKind sig objs slots h).1 :=
     emitVoid_inv (HeapInv h.next h.hops) _ _ slots
-      (fun s hs h' hi' => callO_fwd_inv paramKind paramKind_forwarding s.f true _ h' (hslots s hs) hi' hargs) h hi
+      (fun s hs h' hi' => callO_fwd_inv paramKind paramKind_forwarding passKind s.f true _ h' (hslots s hs) hi' hargs) h hi
   exact ⟨(logOK_iff _).mp this.log_ok, this.hops_eq⟩
 
 example :
     let slots : List OSlot :=
       [⟨false, false, .un .hideReturn (.leaf 0 true [.rref] true)⟩, ⟨false, false, .un .trackObj (.leaf 1 false [.cref] false)⟩]
-    let h := (emitVoidO paramKind [.rref] [0] slots h0).1
+    let h := (emitVoidO paramKind passKind [.rref] [0] slots h0).1
     (slots.all (fun s => s.f.fwdOnly)) = true
     ∧ h.log = [⟨0, [⟨some 0, 0, 7⟩]⟩, ⟨1, [⟨some 0, 0, 107⟩]⟩] ∧ h.moves 0 = 0 := by decide
+
+/-- **A reference handed out as a result stays that reference.**  `bind_return(f, std::ref(x))` / `std::cref(x)`
+    returns the reference to `x` itself — no copy of `x` — when called without arguments (the separate nullary overload
+    `operator()()`), with arguments, below `hide` / `bind` / `retype` / `track_object`, and as the getter of `compose`
+    (the setter receives `x`'s value).  Stated on the value/result model of the Adapt component. -/
+theorem bound_result_reference (f : FExpr) (c : Bool) (t : Ty) (cell : Nat) (n : Int) :
+    let br := FExpr.un (.bindReturn (.ref c t cell n)) f
+    (∀ args v, (callImpl f args).res = .ok v → (callImpl br args).res = .ok (.ref c t cell n))
+    ∧ (∀ v, (callImpl f []).res = .ok v → (callImpl br []).res = .ok (.ref c t cell n))
+    ∧ (∀ nd : Node, nd.forwards = true → ∀ args v, (callImpl f (argsImpl nd args)).res = .ok v →
+        (callImpl (.un nd br) args).res = .ok (.ref c t cell n))
+    ∧ (∀ s args v, (callImpl f args).res = .ok v →
+        (callImpl (.compose1 s br) args).res = (callImpl s [.ref c t cell n]).res) :=
+  bindReturn_ref_result f c t cell n
+
+example :
+    let br := FExpr.un (.bindReturn (.ref true .long 100 7)) (.leaf 0 [] none false)
+    (callImpl br []).res = .ok (.ref true .long 100 7)
+    ∧ (callImpl (.un (.hide none) br) [.num .int 42]).res = .ok (.ref true .long 100 7) := by decide
+
+/-- **A getter's reference result reaches the setter as that reference.**  `compose(s, g)` / `compose(s, g1, g2)` call
+    the setter with the getters' results themselves (no intermediate by-value local): a setter parameter declared by
+    reference is the object the getter returned. -/
+theorem getter_result_reaches_setter (s g g1 g2 : FExpr) (args : List Val) :
+    callImpl (.compose1 s g) args = (callImpl g args).andThen (fun v => callImpl s [v])
+    ∧ callImpl (.compose2 s g1 g2) args
+        = (callImpl g1 args).andThen (fun v1 => (callImpl g2 args).andThen (fun v2 => callImpl s [v1, v2])) :=
+  ⟨callImpl_compose1 s g args, callImpl_compose2 s g1 g2 args⟩
+
+example :
+    (callImpl (.compose2 (.pleaf 2 [.long, .long] none false) (.rleaf 0 [.int] false .long false)
+        (.un (.bindReturn (.ref true .long 100 7)) (.leaf 1 [.int] none false))) [.num .int 3]).log
+      = [⟨0, [.num .int 3]⟩, ⟨1, [.num .int 3]⟩, ⟨2, [.ref true .long 0 3, .ref true .long 100 7]⟩] := by decide
 
 end Sigc.C11
